@@ -12,7 +12,7 @@ from . import vocab
 from . import exprmodel as X
 
 DOMAIN = [
-    "string values never contain the quote character used to write them, a backslash, or CR",
+    "string values never contain an unescaped occurrence of the quote character used to write them, never end in a backslash, never hold CR",
     "free strings never look like a hex colour; strings of expression-capable keywords never look like an expression, regex, list or binding",
     "no token or line of a multi-line string starts with 'include'",
     "bare words: [A-Za-z_][A-Za-z0-9_]*, not a grammar literal, not a keyword of any schema",
@@ -21,7 +21,9 @@ DOMAIN = [
 ]
 
 HEXLIKE = re.compile(r"^#(?:[0-9a-fA-F]{3}){1,2}([0-9a-fA-F]{2})?$")
-BARE_SAFE = re.compile(r"^[A-Za-z_][A-Za-z0-9_]*$")
+# identifier-like words, and words that start with ONE digit followed by a letter (other than the exponent letter) or underscore:
+# 3D, 2ND, 7up, 9_a  (several leading digits - 50K - are not accepted unquoted by the grammar and are not claimed by C05)
+BARE_SAFE = re.compile(r"^(?:[A-Za-z_]|[0-9](?=[A-DF-Za-df-z_]))[A-Za-z0-9_]*$")
 
 # value alternatives MapServer writes as a quoted string although the schema lists an enum
 QUOTED_ENUM = {("composite", "compop")}
@@ -97,24 +99,47 @@ class Node:
 WORDS = ["roads", "Layer 1", "my_layer", "a b c", "x", "Ünïcödé", "日本語", "naïve café", "tab\there", "semi;colon",
          "it's", "path/to/file.shp", "C:/data/x.tif", "100%", "a=b", "what?", "name-with-dash", "under_score",
          "UPPER", "MixedCase", "e.g.", "50", "3.14", "-7", "true", "ON", "end", "layer", "#notcolour", "{curly",
-         "[half", "(paren", "/slash", "two  spaces", " lead", "trail ", "*", "&", "@", "é", "€", "🌍 earth", "𝒳"]
-SAFE_BARE = ["roads", "my_layer", "x1", "Foo", "bar_2", "_u", "ABC", "lakes"]
+         "[half", "(paren", "/slash", "two  spaces", " lead", "trail ", "*", "&", "@", "é", "€", "🌍 earth", "𝒳",
+         # backslashes are content; a quote character directly behind one is an escaped quote
+         "C:\\data\\x.tif", 'say \\"hi\\"', "it\\'s", "a\\\\b", 'C:\\\\maps\\\\\\"new roads\\"', "x\\n", "\\\\'q\\'", 'say "x" it\\\'s', "Napol'i", 'he said "i',
+         # the word include inside a value, Unicode line separators and a form feed inside a value
+         "wms_include_items", "please include me", "sep\u2028here", "nel\u0085x", "ff\x0chere", "vt\x0bx"]
+SAFE_BARE = ["roads", "my_layer", "x1", "Foo", "bar_2", "_u", "ABC", "lakes", "3D", "2ND", "1ST_FLOOR", "4X4", "7up", "9_a", "2d_buildings",
+             "fonts.txt", "../etc/symbols.sym", "./data/shp", "data/roads.shp", "my-fonts/list.txt", "a.b.c"]
+
+
+# file-name-like words (what the PATH terminal takes unquoted); a leading slash is the listed finding about absolute paths
+BARE_PATH = re.compile(r"^(?:\.{1,2}/)?[A-Za-z_][A-Za-z0-9_-]*(?:[./][A-Za-z0-9_-]+)+$")
 
 
 def is_bare_safe(s):
-    return bool(BARE_SAFE.match(s)) and s.upper() not in vocab.grammar_literals() and \
+    return bool(BARE_SAFE.match(s) or BARE_PATH.match(s)) and s.upper() not in vocab.grammar_literals() and \
         s.lower() not in vocab.all_keywords() and not s.lower().startswith("include")
+
+
+def _unescaped(s, q):
+    from .relations import unescaped
+    return unescaped(s, q)
 
 
 def str_tok(content):
     flex = set()
-    if '"' not in content:
-        flex.add("dq")
-    if "'" not in content:
+    if '"' not in content and "'" not in content:
+        flex.update(("dq", "sq"))
+    elif not _unescaped(content, '"'):
+        flex.add("dq")  # every double quote inside is written \" (one way to write it: C05 only swaps quotes around strings holding neither)
+    elif not _unescaped(content, "'"):
         flex.add("sq")
     if is_bare_safe(content):
         flex.add("bare")
     return Tok("str", content, frozenset(flex))
+
+
+def kv_tok(content):
+    """Keys and values of METADATA-like blocks and of CONFIG: unquoted only when identifier-like (file-name-like words are taken
+    unquoted as attribute values only)."""
+    t = str_tok(content)
+    return t if BARE_SAFE.match(content) else nobare(t)
 
 
 def nobare(t):
@@ -125,13 +150,14 @@ def nobare(t):
 def looks_special(s):
     t = s.strip()
     return bool(t) and ((t[0] == "(" and t[-1] == ")") or (t[0] == "[" and t[-1] == "]") or (t[0] == "{" and t[-1] == "}")
-                        or (t[0] == "/" and t[-1] == "/") or t.endswith("'i") or t.endswith('"i') or t.startswith("NOT "))
+                        or (t[0] == "/" and t[-1] == "/") or (len(t) >= 3 and t[-1] == "i" and t[0] in "\"'" and t[-2] == t[0])
+                        or t.startswith("NOT "))
 
 
 def ok_string(s, expression_capable=False):
-    if "\\" in s or "\r" in s or HEXLIKE.match(s):
+    if s.endswith("\\") or "\r" in s or HEXLIKE.match(s):
         return False
-    if '"' in s and "'" in s:
+    if _unescaped(s, '"') and _unescaped(s, "'"):
         return False
     for line in s.split("\n"):
         if line.strip().lower().startswith("include"):
@@ -400,16 +426,19 @@ def make_item(p, a, r, gen_children=None):
         n = r.randint(1, 5)
         pairs = []
         for _ in range(n):
-            kk = r.choice(["wms_title", "WMS_SRS", "ows_enable_request", "Key One", "qstring", "default_x", "k-1", "a.b", "MiXeD"])
+            kk = r.choice(["wms_title", "WMS_SRS", "ows_enable_request", "Key One", "qstring", "default_x", "k-1", "a.b", "MiXeD",
+                           # keys named like keywords that open blocks, keys that differ under case folding only, the word include
+                           "projection", "metadata", "connectionoptions", "PATTERN", "points", "config", "validation", "values", "layer", "end",
+                           "Straße", "STRASSE", "µm", "wms_include_items", "x"])
             vv = rand_string(r, False)
-            pairs.append((str_tok(kk), str_tok(vv)))
+            pairs.append((kv_tok(kk), kv_tok(vv)))
         if r.random() < 0.15:
-            pairs.append((str_tok(pairs[0][0].text.upper()), str_tok("dup-" + rand_string(r, False, multiline_ok=False))))
+            pairs.append((kv_tok(pairs[0][0].text.upper()), kv_tok("dup-" + rand_string(r, False, multiline_ok=False))))
         return Item("kv", key, shape="kv", pairs=pairs)
     if k == "config":
         kk = r.choice(["MS_ERRORFILE", "PROJ_LIB", "ON_MISSING_DATA", "ms_nonsquare", "CGI_CONTEXT_URL", "my_setting"])
         vv = {"ON_MISSING_DATA": "IGNORE", "ms_nonsquare": "YES"}.get(kk) or rand_string(r, False, multiline_ok=False)
-        return Item("config", key, shape="config", toks=[str_tok(kk), str_tok(vv)])
+        return Item("config", key, shape="config", toks=[kv_tok(kk), kv_tok(vv)])
     if k == "projection":
         if r.random() < 0.2:
             return Item("projection", key, shape="projection:auto", toks=[Tok("word", "AUTO")], value=["AUTO"])
@@ -456,6 +485,7 @@ class GenOpts:
         self.valid = kw.get("valid", False)  # supply required keywords, no duplicates
         self.gated = kw.get("gated", set())
         self.skip_keys = kw.get("skip_keys", set())
+        self.symbol_files = kw.get("symbol_files", True)  # now and then a stand-alone symbol file (SYMBOLSET root)
 
 
 def gen_node(r, type_, opts, depth=1, budget=None):
@@ -490,6 +520,10 @@ def gen_node(r, type_, opts, depth=1, budget=None):
         if is_req or r.random() < opts.p_key:
             a = r.choice(alts)
             it = make_item(p, a, r)
+            while opts.valid and it.shape == "expression" and "\n" in it.toks[0].text:
+                # (the schemas' expression patterns use '.', which stops at a line break: such a literal is valid Mapfile text
+                # but not schema-valid, and "valid" documents are the ones the validation checks start from)
+                it = make_item(p, a, r)
             items.append(it)
             rep = 0
             if it.kind == "repeat":
@@ -548,6 +582,9 @@ def gen_document(r, opts=None, root=None):
     opts = opts or GenOpts()
     types = vocab.object_types()
     if root is None:
+        if r.random() < 0.04 and opts.symbol_files:
+            # a stand-alone symbol file: SYMBOLSET ... END, the one root that is not among the 19 block types (always alone)
+            return [gen_node(r, "symbolset", opts)]
         root = r.choice(types + ("map", "map", "layer", "layer", "class", "style"))
     n = 1 if r.random() < 0.85 else r.randint(2, 3)
     return [gen_node(r, root if i == 0 else r.choice(types), opts) for i in range(n)]
@@ -574,7 +611,11 @@ def filler(r, type_, exclude):
         pref = [c for c in cands if c[0].key in ("name", "type", "filled", "character")]
         cands = pref or cands
     p, alts = r.choice(cands)
-    return make_item(p, r.choice(alts), r)
+    a = r.choice(alts)
+    it = make_item(p, a, r)
+    while it.shape == "expression" and "\n" in it.toks[0].text:
+        it = make_item(p, a, r)
+    return it
 
 
 def vocab_slots():
@@ -608,6 +649,8 @@ def vocab_doc(r, obj, key, alt_index, position, member=None, enum_case=None):
         it = enum_item(p, member, r, enum_case)
     else:
         it = make_item(p, a, r)
+        while it.shape == "expression" and "\n" in it.toks[0].text:
+            it = make_item(p, a, r)  # (representatives stay schema-valid: the schemas' expression patterns stop at a line break)
     node = Node(obj)
     before = {"only": 0, "first": 0, "middle": 1, "last": 2}[position]
     after = {"only": 0, "first": 2, "middle": 1, "last": 0}[position]
@@ -674,7 +717,7 @@ def place_comments(nodes, r, p_trailing=0.7, p_above=0.7):
             seen = set()
             for it in nd.items:
                 if it.kind == "attr":
-                    multi = any(t.kind == "str" and "\n" in t.text for t in it.toks)
+                    multi = any("\n" in t.text for t in it.toks)  # (a string value or an expression literal running over several lines)
                     if not multi and it.key not in seen and r.random() < p_trailing:
                         it.comment = text(r.choice(["#", "#", "/*"]))
                         placed.append((it.comment, "trailing", it.key, id(it)))
